@@ -140,7 +140,11 @@ namespace
     if (auto c = value::as <value_cst> (&v))
       {
 	auto const &cst = c->get_constant ();
-	o << "c:" << (cst.dom () ? cst.dom ()->name () : "(null)") << ":";
+	std::string dn = cst.dom () ? cst.dom ()->name () : "(null)";
+	for (auto &ch: dn)
+	  if (ch == ' ' || ch == ':' || ch == '@' || ch == ',')
+	    ch = '_';
+	o << "c:" << dn << ":";
 	mpz_class val = cst.value ();
 	if (val.m_sign == signedness::sign)
 	  o << val.m_i;
